@@ -257,6 +257,7 @@ class RefTemplate:
     def expand(self, globs: dict) -> str:
         r = Ref(globs)
         r.children(self.root)
+        self.work = r.work
         return "".join(r.out)
 
 
@@ -268,6 +269,7 @@ class Ref:
         self.frames: typing.List[dict] = []
         self.slots: typing.Dict[str, El] = {}
         self.out: typing.List[str] = []
+        self.work = 0            # elements rendered: a size measure for step budgets
 
     # ---- TALES -----------------------------------------------------------------
     def lookup(self, name: str):
@@ -394,6 +396,7 @@ class Ref:
             self.out.append("</%s>" % el.tag)
 
     def element(self, el: El) -> None:
+        self.work += 1
         if not el.tal and not el.metal:
             return self.tags(el, el.plain, lambda: self.children(el), False)
         self.metal(el)
